@@ -4,6 +4,8 @@ import (
 	"github.com/grafana/cog/internal/ast"
 )
 
+// Both maps are keyed by the package-qualified name of an object: the pass
+// runs over every schema, and objects of different packages can share a name.
 type RemoveIntersections struct {
 	objectsToRemove map[string]ast.Object
 	arraysToFix     map[string]ast.Object
@@ -49,15 +51,20 @@ func (r RemoveIntersections) processSchema(v *Visitor, schema *ast.Schema) (*ast
 		return nil, foundErr
 	}
 
-	for toRemove := range r.objectsToRemove {
-		schema.Objects.Remove(toRemove)
-	}
+	schema.Objects = schema.Objects.Filter(func(_ string, object ast.Object) bool {
+		_, remove := r.objectsToRemove[object.SelfRef.String()]
+		return !remove
+	})
 
 	return schema, nil
 }
 
 func (r RemoveIntersections) processObject(_ *Visitor, schema *ast.Schema, object ast.Object) (ast.Object, error) {
 	ref := object.Type.AsRef()
+	if ref.ReferredPkg != schema.Package {
+		return object, nil
+	}
+
 	locatedObject, ok := schema.LocateObject(ref.ReferredType)
 	if !ok {
 		return object, nil
@@ -73,13 +80,13 @@ func (r RemoveIntersections) processObject(_ *Visitor, schema *ast.Schema, objec
 			newObject.Type.Hints[hint] = val
 		}
 
-		r.objectsToRemove[locatedObject.Name] = object
+		r.objectsToRemove[locatedObject.SelfRef.String()] = object
 		return newObject, nil
 	}
 
 	if locatedObject.Type.IsArray() {
-		r.objectsToRemove[object.Name] = object
-		r.arraysToFix[object.Name] = locatedObject
+		r.objectsToRemove[object.SelfRef.String()] = object
+		r.arraysToFix[object.SelfRef.String()] = locatedObject
 	}
 
 	// TODO: Check if a reference extends from a Map if necessary
@@ -91,10 +98,10 @@ func (r RemoveIntersections) processStruct(_ *Visitor, _ *ast.Schema, def ast.Ty
 	str := def.AsStruct()
 	for i, field := range str.Fields {
 		if field.Type.IsRef() {
-			if obj, ok := r.objectsToRemove[field.Type.AsRef().ReferredType]; ok {
+			if obj, ok := r.objectsToRemove[field.Type.AsRef().String()]; ok {
 				def.AsStruct().Fields[i] = ast.NewStructField(field.Name, ast.NewRef(obj.SelfRef.ReferredPkg, obj.SelfRef.ReferredType), ast.Comments(obj.Comments))
 			}
-			if obj, ok := r.arraysToFix[field.Type.AsRef().ReferredType]; ok {
+			if obj, ok := r.arraysToFix[field.Type.AsRef().String()]; ok {
 				def.AsStruct().Fields[i] = ast.NewStructField(field.Name, ast.NewArray(obj.Type.AsArray().ValueType), ast.Comments(obj.Comments))
 			}
 
